@@ -275,7 +275,8 @@ Record sub_ext (w : world) (p : nat) (k : sigkind) (s : subscriber) (h : handle)
   se_evps : w_evps w1 = w_evps w;
   se_serial : w_serial w1 = S (w_serial w);
   se_hser : h_serial h = w_serial w;
-  se_vals : forall q, values w1 q = values w q }.
+  se_vals : forall q, values w1 q = values w q;
+  se_bevs : w_bevs w1 = w_bevs w }.
 
 Lemma nth_error_app_Some {A} (l : list A) x i y : nth_error (l ++ [x]) i = Some y -> nth_error l i = Some y \/ (i = length l /\ y = x).
 Proof.
@@ -422,7 +423,7 @@ Proof.
     assert (Ow : owns w p k t) by (exists (psigs_of pr); split; [exact Pv|rewrite psig_sig_of; exact Hsig]).
     assert (Hal : t_alive tb = true).
     { destruct (Hown _ _ _ Ow (fun x => x)) as (sl & fr & E). rewrite Tv0 in E. inversion E; reflexivity. }
-    constructor; cbn [h_table h_pos h_serial]; [| | | | | | | | | | |reflexivity|reflexivity|reflexivity|reflexivity|reflexivity|reflexivity|].
+    constructor; cbn [h_table h_pos h_serial]; [| | | | | | | | | | |reflexivity|reflexivity|reflexivity|reflexivity|reflexivity|reflexivity| |reflexivity].
     + exact Hl.
     + exact Hold.
     + exact Hnew.
@@ -471,7 +472,7 @@ Proof.
     { intros q. unfold w0. apply (pview_bind (set_tables w (w_tables w ++ [table_new]))). }
     set (w1 := set_serial (put_table w0 t _) (S (w_serial w))) in *.
     assert (Pv1 : forall q, pview w1 q = pview w0 q) by reflexivity.
-    constructor; cbn [h_table h_pos h_serial]; [| | | | | | | | | | |reflexivity|reflexivity|reflexivity|reflexivity|reflexivity|reflexivity|].
+    constructor; cbn [h_table h_pos h_serial]; [| | | | | | | | | | |reflexivity|reflexivity|reflexivity|reflexivity|reflexivity|reflexivity| |reflexivity].
     + exact Hl.
     + intros t' pos' ser s' Hs. apply Hold. apply S0. exact Hs.
     + intros t' pos' ser s' Hs. destruct (Hnew _ _ _ _ Hs) as [Ho|Hn]; [left; apply S0; exact Ho|right; exact Hn].
